@@ -255,3 +255,23 @@ def expiry_field(ctx):
             if a:
                 out.append(a)
     return out[0] if len(out) == 1 else "_ttl"
+
+
+def exc_instance_decider(cfg, exc_class):
+    """decide(test) for `isinstance(<handler variable>, T)` tests when the exception in flight is exactly `exc_class`"""
+    from ..cfg import X
+    hvars = {n.ast.name for n in cfg.live if n.kind == "except" and getattr(n.ast, "name", None)}
+
+    def decide(node):
+        e = node.ast
+        if isinstance(e, ast.Call) and A.dotted(e.func) == "isinstance" and len(e.args) == 2 and \
+                isinstance(e.args[0], ast.Name) and e.args[0].id in hvars:
+            classes = X.get(e.args[1])
+            if classes is None:
+                return None
+            if any(issubclass(exc_class, c) for c in classes):
+                return True
+            if not any(issubclass(c, exc_class) for c in classes):
+                return False
+        return None
+    return decide
